@@ -120,6 +120,11 @@ META["C03"] = dict(
          "the model); C03_crash_after_gc_history (+ _against_map, _keeps_working_partial, CID variants): the flush-crash theorem for "
          "histories that CONTAIN index GC and primary GC cycles and reopens anywhere (premises GcCountersOK and PgcFromClean = D11; the "
          "continuation after recovery may contain index GC but, on the multihash primary, no primary GC = known finding D12). "
+         "Crashes while OpenStore itself runs (Sth/Model/CrashImageOpen.lean: the directory after every file-system step of an open - "
+         "freelist cut, header writes, snapshot REMOVED after loading, scan truncations, file creations): C03_open_crash_recovers / "
+         "_restarted / _close / _gc (for every reachable durable disk, every crash image of a Flush or a Close, histories with GC "
+         "included: an open interrupted at ANY step and restarted ANY number of times ends in the same directory, the same memory state "
+         "and the same answers), C03_open_crash_old_or_new, C03_open_crash_first_open. "
          "Granularity: the model is cut at polls; the file-system steps between two polls are each atomic and covered by the "
          "crash engine. Partial with respect to the statement: "
          "crashes inside open and upgrade steps and between the polls of a GC cycle are "
